@@ -499,6 +499,175 @@ def replay_e1(prop, path):
     return 1 if bad else 0
 
 
+# ----------------------------------------------------------------------------------------- E4 document engine (C01, C02, C08)
+def tlc_lines(cwd, module, cfg, tag, out_path, workers=8, timeout=3000):
+    """run a generator module; lines tagged `tag` are decoded (one JSON string each) and written to out_path"""
+    meta = os.path.join(cwd, "meta_" + os.path.splitext(cfg)[0])
+    p = subprocess.Popen(["timeout", str(timeout), "tlc", "-workers", str(workers), "-metadir", meta, "-cleanup", "-noGenerateSpecTE", "-config", cfg, module],
+                         cwd=cwd, stdout=subprocess.PIPE, stderr=subprocess.STDOUT, text=True, env=dict(os.environ, JAVA_TOOL_OPTIONS="-Xss1g"))
+    n = 0
+    st = {"generated": 0, "distinct": 0, "errors": []}
+    pre = '<<"%s", ' % tag
+    with open(out_path, "w") as f:
+        for line in p.stdout:
+            if line.startswith(pre):
+                f.write(json.loads(line[len(pre):].rstrip()[:-2]) + "\n")
+                n += 1
+            elif "states generated" in line and "distinct" in line and line[:1].isdigit():
+                parts = line.replace(",", "").split()
+                st["generated"], st["distinct"] = int(parts[0]), int(parts[3])
+            elif line.startswith("Error:") or "Attempted" in line:
+                st["errors"].append(line.strip())
+    p.wait()
+    st["rc"] = p.returncode
+    st["n"] = n
+    return st
+
+
+def e4_run(tier):
+    key = tree_hash("E4|%s|%d" % (tier, seed()))
+    cache = os.path.join(WORK, "cache", "E4-%s.json" % key)
+    if os.path.exists(cache):
+        log("[E4] reusing engine run %s" % key)
+        return json.load(open(cache))
+    t0 = time.time()
+    build()
+    run = os.path.join(WORK, "E4-" + tier)
+    shutil.rmtree(run, ignore_errors=True)
+    shutil.copytree(os.path.join(ROOT, "spec", "doc"), run)
+    res = {"tier": tier, "modes": {}, "verdicts": [], "tool_errors": [], "inputs": 0, "states": 0, "samples": []}
+    maxlen = 3 if tier == "quick" else 4
+    for mode in ("docs", "defects", "strings", "deep"):
+        cfg = "gen_%s.cfg" % mode
+        open(os.path.join(run, cfg), "w").write("SPECIFICATION Spec\nCHECK_DEADLOCK FALSE\nCONSTANTS\n  Mode = \"%s\"\n  MaxLen = %d\n" % (mode, maxlen))
+        inp = os.path.join(run, "in_%s.ndjson" % mode)
+        g = tlc_lines(run, "DocGen.tla", cfg, "I", inp)
+        if g["rc"] != 0 or g["n"] == 0:
+            res["tool_errors"].append("DocGen %s: rc=%s n=%d %s" % (mode, g["rc"], g["n"], g["errors"][:2]))
+            continue
+        res["states"] += g["distinct"]
+        out = os.path.join(run, "res_%s.ndjson" % mode)
+        if mode == "deep":
+            # one process per input, default main-thread stack size: a crash of the process is the outcome "abort"
+            with open(out, "w") as fo:
+                for i, l in enumerate(open(inp)):
+                    one_in = os.path.join(run, "deep_%d.ndjson" % i)
+                    one_out = os.path.join(run, "deep_%d.out" % i)
+                    open(one_in, "w").write(l)
+                    r = sh([VH, "load", "--in", one_in, "--out", one_out, "--stack-mb", "8"], check=False, timeout=600)
+                    if r.returncode == 0 and os.path.exists(one_out) and os.path.getsize(one_out) > 0:
+                        fo.write(open(one_out).read())
+                    else:
+                        d = json.loads(l)
+                        dead = {"t": "abort", "k": "", "line": 0, "msg": "process ended with status %s" % r.returncode, "warn": [], "d": "", "proj": "",
+                                "rt": {"t": "none", "d2": "", "s1": "", "s2": ""}}
+                        fo.write(json.dumps({"id": d["id"], "kind": "deep", "cls": d["cls"], "nlines": 2, "len": len(d["text"]), "strict": dead,
+                                             "lenient": dead, "check": {"t": "ok", "v": True}, "exp": "", "text": ""}) + "\n")
+        else:
+            extra = ["--prefixes", "--subst", "20" if tier == "quick" else "200", "--seed", str(seed())] if mode == "docs" else []
+            sh([VH, "load", "--in", inp, "--out", out] + extra, timeout=3600)
+        nrec = sum(1 for _ in open(out))
+        res["inputs"] += nrec
+        t = run_tlc(run, "DocTrace.tla", "trace.cfg", 1, 3600, env={"RESULTS": out}, heap="12g", tag="_" + mode)
+        consumed = not any(l.startswith('<<"NOTCONSUMED"') for l in t["tagged"]) and t["rc"] == 0
+        if not consumed:
+            res["tool_errors"].append("DocTrace %s not consumed: rc=%s %s" % (mode, t["rc"], (t["errors"] or t["log"][-3:])[:3]))
+        nv = 0
+        for tl in t["tagged"]:
+            tag, rest = decode_tagged(tl)
+            if tag == "V":
+                v = json.loads(rest[0])
+                v["mode"] = mode
+                res["verdicts"].append(v)
+                nv += 1
+        res["modes"][mode] = {"generated_by_tlc": g["n"], "records": nrec, "failing_predicates": nv}
+        with open(out) as f:
+            for i, l in enumerate(f):
+                if i in (0, 17):
+                    r = json.loads(l)
+                    res["samples"].append({"mode": mode, "kind": r["kind"], "cls": r["cls"], "text": r["text"][:160], "strict": r["strict"]["t"], "lenient": r["lenient"]["t"]})
+    res["wall"] = time.time() - t0
+    os.makedirs(os.path.dirname(cache), exist_ok=True)
+    json.dump(res, open(cache, "w"))
+    return res
+
+
+def e4_kf_match(v, findings):
+    for f in findings:
+        if f.get("engine") != "E4":
+            continue
+        if f.get("pred") and f["pred"] != v["pred"]:
+            continue
+        if f.get("kind") and f["kind"] != v["kind"]:
+            continue
+        if f.get("strict_t") and f["strict_t"] != v["strict"]["t"]:
+            continue
+        if f.get("text_contains") and f["text_contains"] not in v.get("text", ""):
+            continue
+        return f
+    return None
+
+
+def check_e4(prop, tier):
+    t0 = time.time()
+    res = e4_run(tier)
+    kf = known_findings().get("findings", [])
+    viol = 0
+    known = {}
+    for v in res["verdicts"]:
+        if v["prop"] != prop:
+            continue
+        f = e4_kf_match(v, kf)
+        if f:
+            known[f["id"]] = f
+            continue
+        viol += 1
+        if viol <= 20:
+            d = os.path.join(WORK, "replays")
+            os.makedirs(d, exist_ok=True)
+            path = os.path.join(d, "%s-%d.json" % (prop, viol))
+            json.dump({"property": prop, "engine": "E4", "predicate": v["pred"], "kind": v["kind"], "cls": v["cls"], "text": v.get("text", ""), "id": v["id"]}, open(path, "w"))
+            print("VIOLATION property=%s replay=%s" % (prop, path))
+            log("   predicate %s fails on a %s/%s input: strict=%s %s lenient=%s text=%r" % (v["pred"], v["kind"], v["cls"], v["strict"]["t"], v["strict"]["k"], v["lenient"]["t"], v.get("text", "")[:80]))
+    for fid, f in known.items():
+        print("KNOWN-FINDING: property=%s %s" % (prop, f["what"]))
+    ev = {"property_id": prop, "tier": tier, "seed": seed(), "level": "model_checking",
+          "coverage": {"states": max(1, res["states"]), "transitions": max(1, res["states"]), "traces_validated_against_impl": res["inputs"],
+                       "samples": res["samples"][:6] or ["none"], "modes": res["modes"], "known_findings_hit": sorted(known.keys()),
+                       "explanation": "TLC enumerates abstract documents x rendering styles, documented defect injections, short symbol strings after structural prefixes and nesting depths (spec/doc/ArxmlDoc.tla, DocGen.tla); the harness loads each input strictly, leniently and through the header check; TLC evaluates the property predicates of spec/doc/DocTrace.tla on every result record"},
+          "assumptions": ["the {hh} byte notation and its decoding in harness/src/doc.rs", "projection harness/src/doc.rs::proj", "TLC"],
+          "wall_s": round(time.time() - t0, 2), "violations": viol}
+    os.makedirs(EVID, exist_ok=True)
+    json.dump(ev, open(os.path.join(EVID, prop + ".json"), "w"), indent=1)
+    if res["tool_errors"]:
+        log("TOOL ERRORS: " + "; ".join(res["tool_errors"][:5]))
+        return 1 if viol else 2
+    return 1 if viol else 0
+
+
+def replay_e4(prop, path):
+    build()
+    r = json.load(open(path))
+    run = os.path.join(WORK, "E4-replay")
+    shutil.rmtree(run, ignore_errors=True)
+    shutil.copytree(os.path.join(ROOT, "spec", "doc"), run)
+    inp = os.path.join(run, "in.ndjson")
+    open(inp, "w").write(json.dumps({"id": r.get("id"), "kind": r.get("kind", "raw"), "cls": r.get("cls", ""), "text": r.get("text", ""), "exp": ""}) + "\n")
+    out = os.path.join(run, "res.ndjson")
+    sh([VH, "load", "--in", inp, "--out", out])
+    t = run_tlc(run, "DocTrace.tla", "trace.cfg", 1, 600, env={"RESULTS": out}, tag="_replay")
+    bad = 0
+    for tl in t["tagged"]:
+        tag, rest = decode_tagged(tl)
+        if tag == "V" and json.loads(rest[0])["prop"] == prop and json.loads(rest[0])["pred"] != "Faithful":
+            bad += 1
+    if bad:
+        print("VIOLATION property=%s replay=%s" % (prop, path))
+        return 1
+    print("replay: property %s holds on this input" % prop)
+    return 0
+
+
 # ----------------------------------------------------------------------------------------- E7 regex engine (C19)
 def check_c19(tier):
     import regex2tla
@@ -633,12 +802,18 @@ def main(argv):
             return 0
         prop = argv[0]
         if len(argv) > 2 and argv[1] == "--replay":
-            return replay_c19(argv[2]) if prop == "C19" else replay_e1(prop, argv[2])
+            if prop == "C19":
+                return replay_c19(argv[2])
+            if prop in ("C01", "C02", "C08"):
+                return replay_e4(prop, argv[2])
+            return replay_e1(prop, argv[2])
         tier = argv[1] if len(argv) > 1 else os.environ.get("VERIF_TIER", "quick")
         if prop in E1_PROPS:
             return check_e1(prop, tier)
         if prop == "C19":
             return check_c19(tier)
+        if prop in ("C01", "C02", "C08"):
+            return check_e4(prop, tier)
         log("unknown property / not claimed: " + prop)
         return 2
     except ToolError as e:
